@@ -40,6 +40,10 @@ def _is_boolish(e, fd):
             return True
         if nm == 'Promise':
             return _promise_resolves_true(e, fd)
+        if nm == 'Promise.resolve' and len(e.args) == 1:
+            return _is_boolish(e.args[0], fd)
+        if nm == 'Promise.reject':
+            return True       # a rejected promise is the error path (a raise), not a verdict
     if isinstance(e, ast.Name):
         defs = [n for n in walk_no_nested(fd) if isinstance(n, ast.Assign) and any(is_name(t, e.id) for t in n.targets)]
         return bool(defs) and all(_is_boolish(d.value, fd) for d in defs)
